@@ -51,6 +51,7 @@ type qMsg struct {
 	UTF8          bool              `json:"smtputf8,omitempty"`
 	RequireTLS    bool              `json:"requiretls,omitempty"`
 	TLSOverride   bool              `json:"tls_required_no,omitempty"`
+	Quarantine    bool              `json:"quarantine,omitempty"` // raised by the pipeline at the body stage (C06)
 	AuthUser      string            `json:"auth_user,omitempty"`
 	AuthPassword  string            `json:"auth_password,omitempty"`
 	Plans         []qPlan           `json:"plans,omitempty"`
@@ -470,6 +471,7 @@ func qRun(sc qScenario, observe func(dir string, h *qHistory)) *qHistory {
 			// as the SMTP endpoint does: the TLS-Required override is known only once the header has
 			// been read, i.e. after Start and the AddRcpt calls
 			meta.TLSRequireOverride = m.TLSOverride
+			meta.Quarantine = m.Quarantine // the pipeline applies check results at the body stage
 			var body buffer.Buffer = buffer.MemoryBuffer{Slice: []byte(m.Body)}
 			if m.BodyInFile {
 				p := filepath.Join(bufDir, m.ID)
